@@ -19,11 +19,14 @@ def run(ctx):
                 "grammar incl. bit-level and byte-transforming wrappers) with v drawn from the program's value domain (boundary "
                 "integers, empty/maximal strings and arrays, every label; keyword contexts); non-trivial = the premise of C01Sym "
                 "held (well-formed program, value in the domain), counted by distinct (program, value)")
-    nprog = 900 if quick else 12000
+    nprog = 500 if quick else 10000
+    from .. import universes as U
+    progs = [(p, rng.choice([{"k": 2}, {"k": 1}, {"k": 3}])) for p in U.systematic(rng, 0.55 if quick else 1.0)]
+    for i in range(nprog):
+        kw = rng.choice([{}, {}, {"k": 2}, {"k": 1, "w": 3}])
+        progs.append((gen.program(rng, rng.choice([1, 2, 3, 3, 4]), kw), kw))
     with campaign.Campaign(ctx, "c01", shard_size=700) as camp:
-        for i in range(nprog):
-            kw = rng.choice([{}, {}, {"k": 2}, {"k": 1, "w": 3}])
-            prog = gen.program(rng, rng.choice([1, 2, 3, 3, 4]), kw)
+        for i, (prog, kw) in enumerate(progs):
             con = campaign.realizable(prog)
             if con is None:
                 continue
